@@ -199,6 +199,7 @@ static Verdict residue(const std::string &at, const Snap &a, const Snap &b, bool
     if (a.env_sum != b.env_sum) return bad("environment-changed", at + "environ differs");
     if (a.cwd != b.cwd) return bad("cwd-changed", at + "working directory " + b.cwd + " instead of " + a.cwd);
     if (a.umask_v != b.umask_v) return bad("umask-changed", at + "umask changed");
+    if (a.locale != b.locale) return bad("locale-changed", at + "locale of the calling program is " + b.locale + " instead of " + a.locale);
     if (a.sig_sum != b.sig_sum) return bad("signals-changed", at + "signal mask or dispositions changed");
     if (heap_zero_expected && warm && b.lib_live_allocs > warm->lib_live_allocs)
         return bad("heap-retained", at + std::to_string(b.lib_live_allocs - warm->lib_live_allocs) + " more live allocations made by the library (" + std::to_string(b.lib_live_bytes - warm->lib_live_bytes) + " bytes) than after the warm-up call");
@@ -223,7 +224,7 @@ static Verdict oracle_c16(const Plan &p, const RunResult &r) {
             const ExecObs *o = obs_of(r, cv.opi); if (!o) continue;
             if (o->real_calls < 1) return bad("exec-not-reached", "call #" + std::to_string(cv.opi) + ": real exec not reached");
             if (o->before.sig_sum != o->at_exec.sig_sum || o->before.sig_sum != o->after.sig_sum) return bad("signals-changed", "call #" + std::to_string(cv.opi) + ": signal mask or dispositions of the calling thread changed");
-            if (o->before.env_sum != o->after.env_sum || o->before.cwd != o->after.cwd || o->before.umask_v != o->after.umask_v) return bad("process-state-changed", "call #" + std::to_string(cv.opi) + ": environment, working directory or umask changed");
+            if (o->before.env_sum != o->after.env_sum || o->before.cwd != o->after.cwd || o->before.umask_v != o->after.umask_v || o->before.locale != o->after.locale) return bad("process-state-changed", "call #" + std::to_string(cv.opi) + ": environment, working directory, umask or locale changed");
         }
         return ok();
     }
